@@ -353,6 +353,8 @@ class Collections:
                     v = d.value
                     if _is_empty_value(v):
                         continue
+                    if self.infeasible(d.stmt):
+                        continue
                     # self-referential re-binding  acc = acc + more
                     if isinstance(v, ast.BinOp) and isinstance(v.op, (ast.Add, ast.BitOr)) and any(isinstance(x, ast.Name) and x.id == e.id for x in (v.left, v.right)):
                         other = v.right if isinstance(v.left, ast.Name) and v.left.id == e.id else v.left
@@ -430,6 +432,8 @@ class Collections:
                 return self._describe(e.args[0], depth - 1, busy)
             if n == "cast" and len(e.args) == 2:
                 return self._describe(e.args[1], depth - 1, busy)
+            if isinstance(e.func, ast.Attribute) and e.func.attr == "fromkeys" and isinstance(e.func.value, ast.Name) and e.func.value.id in ("dict", "OrderedDict") and len(e.args) == 1:
+                return self._describe(e.args[0], depth - 1, busy)  # order-preserving removal of duplicates
             if n == "dict" and len(e.args) == 1 and not e.keywords:
                 sub = self._describe(e.args[0], depth - 1, busy)
                 out = Desc(unknown=sub.unknown, removals=sub.removals)
@@ -540,7 +544,7 @@ class Collections:
             t = fn.type_of(f)
             for m in (t[1] if t[0] == "union" else [t]):
                 if m[0] == "fn" and not isinstance(m[1].node, ast.Lambda):
-                    s = self._summarise_fn(m[1], args)
+                    s = fn.summarise(call, None, 6, set())
                     return s if s is not None else call
                 if m[0] == "fn" and isinstance(m[1].node, ast.Lambda):
                     return self.apply(m[1].node, args)
@@ -562,6 +566,17 @@ class Collections:
         if len(ps) != len(args) or a.vararg or a.kwarg or a.kwonlyargs:
             return None
         return substitute(copy_node(body[0].value, callee), dict(zip(ps, args)))
+
+    def infeasible(self, stmt: ast.AST) -> bool:
+        """The statement sits under `isinstance(x, str)` although x is visibly a list / comprehension (or vice versa)."""
+        for e, pol in flatten(self.fn.conds_all(stmt)):
+            if isinstance(e, ast.Call) and isinstance(e.func, ast.Name) and e.func.id == "isinstance" and len(e.args) == 2 and isinstance(e.args[1], ast.Name) and e.args[1].id == "str":
+                x = self.x(e.args[0])
+                is_coll = isinstance(x, (*COMPS, ast.List, ast.Tuple, ast.Set, ast.Dict))
+                is_str = isinstance(x, (ast.JoinedStr,)) or (isinstance(x, ast.Constant) and isinstance(x.value, str))
+                if (pol and is_coll) or (not pol and is_str):
+                    return True
+        return False
 
     def tree(self, e: ast.AST) -> ast.AST | None:
         """The node of the function's own tree that `e` is (or is an unchanged copy of a Name / copy-call of); None if detached."""
